@@ -43,6 +43,7 @@ def run(check: Check, repo: Repo, tier: str) -> None:
     G.arg_name_match(check, repo, [f for m in em for f in m.functions()])
     check.floor("ARG-NAME-MATCH", 100, "resolved calls with >= 2 named positional arguments in execution/")
     X.handler_nulls(check, repo, em)
+    X.handler_type_arg(check, repo, em)
     X.await_guard(check, repo, em)
     X.cancel_settle(check, repo, [repo.mod('pyutils.gather_with_cancel')], floor=1)
     check.floor("KEY-ORDER", 6, "stores / gathers in the concurrent completion functions")
